@@ -188,7 +188,7 @@ of_mod2sparse* 	of_fill_2D_pchk_matrix 		(of_mod2sparse	*m,
 	{
 		for (j = 0; j < d; j++)
 		{
-			of_mod2sparse_insert(m, i, 4 * j + ( i - d )+l+d);
+			of_mod2sparse_insert(m, i, l * j + ( i - d )+l+d);
 		}
 	}
 	return m;
